@@ -208,19 +208,14 @@ def dup_listing(p, rng):
         root["includes"] = list(root.get("includes") or []) + ["dupinc.yml"]
         listed = [("includes", "dupinc.yml")]
     kind, x = rng.choice(listed)
-    how = rng.choice(["second_doc", "same_list", "other_file"])
-    if how == "second_doc":
-        root_docs.append({kind: [x]})
-    elif how == "same_list":
+    # (a file reached under two spellings of its path — `extra.yml` and `sub1/../extra.yml` — is loaded twice by laze and by the model and
+    # rejected as duplicate modules: a finding noted in DESIGN §9.2, outside C17's "reachable through subdirs"; not generated)
+    how = rng.choice(["second_doc", "same_list", "third_doc"])
+    if how == "same_list":
         root[kind] = list(root[kind]) + [x]
     else:
-        others = [f for f in p["files"] if f != "laze-project.yml" and "/" not in f.replace("/laze.yml", "") and f.endswith("laze.yml")]
-        if kind == "includes" and others:
-            # a sub-directory file includes the root-level file by relative path
-            f = rng.choice(others)
-            depth = f.count("/")
-            p["files"][f][0]["includes"] = list(p["files"][f][0].get("includes") or []) + ["../" * depth + x]
-        else:
+        root_docs.append({kind: [x]})
+        if how == "third_doc":
             root_docs.append({kind: [x]})
 
 
